@@ -1,5 +1,7 @@
 \* thorough, round trip: every framer, two-letter payload alphabet, environment faults, liveness
 CONSTANTS
+  FixExtractOverflow = TRUE
+  FixFramerError = TRUE
   Lfls = {1, 2, 3, 4, 5, 6, 7, 8}
   HostLfls = {}
   Endians = {TRUE, FALSE}
